@@ -16,6 +16,8 @@ def plan(ctx):
                               bounds="list-typed child fields 0..2 (dict: 0..2 pairs); child truth values symbolic; any one child may raise",
                               desc="real node, logging stub children: and/or/if-else lazy and yield the deciding operand; every "
                                    "other child exactly once in field order, complete before the operation; failing child => prefix"))
+    obs.append(Obligation("step.CallOp.undefined", "xh", "c09", "node_order", param={"kind": "CallOp", "op": None, "unbound": True}, timeout=T,
+                          bounds="0..2 arguments, any one may raise", desc="call of an UNDEFINED function: arguments evaluated once, in order, first; then ParserError"))
     from sqv.harness import c09 as h
     for i, (text, _) in enumerate(h.TEMPLATES):
         obs.append(Obligation(f"api.t{i}", "xh", "c09", "api_order", param={"t": i}, timeout=T,
